@@ -13,6 +13,23 @@ CHECKS = {
              "real encoder/decoder/integer codecs must agree on every exported point and on harness-chosen points (192 non-alphabet bytes x "
              "positions, lengths mod 4, integers around 256^k up to 2^4096) that TLC evaluates as a calculator.",
         note="Trusted: TLC's evaluation of Codec.tla, CPython base64/binascii as primitives. Beyond the enumerated bounds inputs are sampled."),
+    "C10": dict(
+        cat="model_checking", ref="DESIGN.md section 6 (C10)",
+        technique="TLA+ Claims spec: TLC checks the operational validate() procedure against the declarative acceptance predicate over every case and exports each case; every case replayed into JWTClaimsRegistry",
+        text="Claims.tla holds the declarative acceptance predicate (layer D) and the code-shaped decision procedure (layer O). TLC proves O |= D "
+             "over ~100k cases (8 claim names x 27 JSON values incl. the now+-leeway boundary ticks x 109 request options x 3 leeways, plus pairs of "
+             "claims for error priority) and refutes six named deviations; every exported case is executed against the real registry under several "
+             "epochs, int/float spellings and now=None, and its error class must lie in the set TLC computed.",
+        note="Trusted: TLC, the concretisation of abstract values (ticks -> epoch seconds). Don't-care corners listed in evidence.assumptions."),
+    "C05": dict(
+        cat="model_checking", ref="DESIGN.md section 6 (C05)",
+        technique="TLA+ AlgRegistry spec over the documented tables (JoseDefs): TLC enumerates all single calls and call histories with draft registrations; behaviours replayed in fresh processes against joserfc",
+        text="AlgRegistry.tla models the class-level tables, draft registration and the per-call gate; TLC enumerates every (name, allow-list shape, "
+             "algorithms=/registry=, operation, serialization, registered drafts) call, every 2-call history and simulated 4-call histories, checks the gate "
+             "against 'exactly the allowed/recommended supported names', 'none never verifies' and history independence, refutes six named deviations, and "
+             "exports each behaviour; the harness executes each behaviour in a process whose registered drafts match (fresh process per history) with "
+             "refimpl-forged tokens on the consuming side.",
+        note="Trusted: TLC, refimpl as token forge, key pool. Quick tier samples a third of the JWE single calls; thorough runs all."),
 }
 
 NOT_YET = {}
